@@ -6036,7 +6036,8 @@ pub fn initialize(env: &mut Env) {
                         if s.len() == 0 {
                             Err(NErr::value_error("Can't choose from empty string".into()))
                         } else {
-                            let rind = rand::thread_rng().gen_range(0..s.len());
+                            // index by char, not by byte: nth() below counts chars
+                            let rind = rand::thread_rng().gen_range(0..s.chars().count());
                             Ok(Obj::Seq(Seq::String(Rc::new(
                                 s.chars().nth(rind).map(String::from).unwrap(),
                             ))))
